@@ -146,7 +146,7 @@ fn main() -> Result<(), Error> {
 #[cfg(cwe_checker_verif)]
 fn main() -> Result<(), Error> {
     verif_entry::run_simulated(|| {
-        let cmdline_args = CmdlineArgs::parse();
+        let cmdline_args = CmdlineArgs::parse_from(verif_entry::args());
         run_with_ghidra(&cmdline_args)
     })
 }
